@@ -1,14 +1,17 @@
 import Exetera.Model.Basic
+import Exetera.Spec.CsvRender
 /-!
   Executable model of `DataFrame.to_csv` and `DataFrame.to_pandas` (exetera/core/dataframe.py), C18.  Core Lean only.
 
   A frame is the ordered list of its columns; every cell is the *text* the export hands to `csv.writer`
   (the string of an indexed-string field, `str()` of the `.tolist()` element of a numeric field — Python's `str` of a
-  number is an external the model does not look into). `csv.writer.writerow` is the parameter `writerow`
-  (instantiated by the driver with `Spec.Csv.renderRow`, which the harness validates against Python's csv module).
+  number is an external the model does not look into). The function that turns a row into a line of the file is the
+  parameter `writerow`: as found it is `csv.writer.writerow` (`Spec.Csv.renderRow`, which the harness validates against
+  Python's csv module); with fixes/D30_NC18a applied it is ExeTera's own `_csv_record`, modelled below as `csvRecord`.
 
   The model mirrors the code *with the fixes NC18d/NC18e applied* (the caller's `column_filter` list is copied; the filter
-  column is dropped from the output only when the filter is this frame's own field).
+  column is dropped from the output only when the filter is this frame's own field); `to_pandas` is modelled with and
+  without the fix NC18b (`Variant`).
 -/
 namespace Exetera.Export
 
@@ -55,6 +58,7 @@ inductive ColFilter where
 inductive RowFilter where
   | none
   | array (xs : List Bool)                                             -- numpy bool array
+  | intArray (xs : List Int)                                           -- numpy array of an integer dtype
   | field (name : Option Cell) (own : Bool) (isBool : Bool) (xs : List Bool)
       -- an ExeTera field: its name (`None` for memory fields), whether it is this frame's own column object,
       -- whether its `_nformat` is 'bool', its data
@@ -71,10 +75,13 @@ def validateSelectedKeys (by' : ColFilter) (all : List Cell) : Except Err (List 
     else .error (.valueError "not existing field(s)")
   | _ => .error (.valueError "Selected field names should either be string or list of string")
 
-/-- `validation.validate_boolean_row_filter`: the filter array and whether it came from a field -/
+/-- `validation.validate_boolean_row_filter`. The validator returns the array itself; the callers only ever look at
+    `filter_array[j] == True`, so the model keeps that truth value per entry: the entry itself for a boolean array or
+    field, `x == 1` for an entry of an integer array (numpy: `np.int64(2) == True` is `False`). -/
 def validateRowFilter : RowFilter → Except Err (Option (List Bool))
   | .none => .ok Option.none
   | .array xs => .ok (some xs)
+  | .intArray xs => .ok (some (xs.map (· == 1)))
   | .field _ _ isBool xs => if isBool then .ok (some xs) else .error (.valueError "'row_filter' must be boolean field")
   | .invalid => .error (.valueError "'row_filter' must be one of (Field, or ndarray")
 
@@ -82,6 +89,26 @@ def validateRowFilter : RowFilter → Except Err (Option (List Bool))
 def filterColumnName : RowFilter → Option Cell
   | .field (some n) true _ _ => some n
   | _ => Option.none
+
+/-! ### `_csv_record` (fixes/D30_NC18a): the line of the file for one row -/
+
+/-- `text[:1] == ' ' or ',' in text or '"' in text or '\n' in text or '\r' in text` -/
+def needsQuotes (s : Cell) : Bool :=
+  s.head? == some ' ' || s.contains ',' || s.contains '"' || s.contains '\n' || s.contains '\r'
+
+/-- `'"' + text.replace('"', '""') + '"'` when the cell needs quotes -/
+def quoteCell (s : Cell) : List Char :=
+  if needsQuotes s then '"' :: (Spec.Csv.escape s ++ ['"']) else s
+
+/-- `','.join(texts)` -/
+def joinRecord : List Cell → List Char
+  | [] => []
+  | [c] => quoteCell c
+  | c :: cs => quoteCell c ++ ',' :: joinRecord cs
+
+/-- `_csv_record(cells)`; a record that is one empty cell is written as `""` -/
+def csvRecord (cells : List Cell) : List Char :=
+  (if cells = [[]] then ['"', '"'] else joinRecord cells) ++ ['\n']
 
 /-! ### Python builtins used by the loop -/
 
@@ -169,24 +196,83 @@ def toCsv (writerow : List Cell → List Char) (f : Frame) (rf : RowFilter) (cf 
         | .error e => .error e
         | .ok rows => .ok (writerow names ++ rows.flatMap writerow)
 
-/-! ### `to_pandas` -/
+/-! ### `to_pandas`
+
+  Two variants (DESIGN 1.3): `repaired` is the code with `fixes/NC18b_to_pandas_accepts_the_row_filters_of_to_csv.patch`
+  applied — `row_filter` goes through `validate_boolean_row_filter` exactly as in `to_csv` (a Python list through
+  `np.asarray` first) and row `i` of every column is kept iff `i < len(filter_array)` and `filter_array[i] == True`;
+  `asFound` fancy-indexes every column with the raw argument (`field_arr[row_filter]`, finding NC18b). -/
+
+inductive Variant where
+  | asFound
+  | repaired
+  deriving Repr, DecidableEq
 
 /-- the `row_filter` argument of `to_pandas` -/
 inductive PdFilter where
   | none
-  | list (xs : List Bool)        -- Python list of bool
-  | array (xs : List Bool)       -- numpy bool array
-  | field (xs : List Bool)       -- an ExeTera field: numpy refuses it as an index
+  | list (xs : List Bool)                      -- Python list of bool
+  | array (xs : List Bool)                     -- numpy bool array
+  | intArray (xs : List Int)                   -- numpy array (or Python list) of an integer dtype
+  | field (isBool : Bool) (xs : List Bool)     -- an ExeTera field: whether its `_nformat` is 'bool', its data
+  | invalid                                    -- anything else (e.g. a str)
   deriving Repr, DecidableEq
 
-/-- `field_arr[row_filter]` -/
-def pdApply (data : List Cell) : PdFilter → Except Err (List Cell)
+/-- what `to_pandas` hands to `validate_boolean_row_filter`: a list goes through `np.asarray` first; the name of a
+    Field and whether it is a column of this frame play no role here -/
+def PdFilter.toRowFilter : PdFilter → RowFilter
+  | .none => .none
+  | .list xs => .array xs
+  | .array xs => .array xs
+  | .intArray xs => .intArray xs
+  | .field isBool xs => .field Option.none false isBool xs
+  | .invalid => .invalid
+
+/-- the object `to_csv` was given as `row_filter`, given to `to_pandas` -/
+def PdFilter.ofCsv : RowFilter → PdFilter
+  | .none => .none
+  | .array xs => .array xs
+  | .intArray xs => .intArray xs
+  | .field _ _ isBool xs => .field isBool xs
+  | .invalid => .invalid
+
+/-- `selected = np.zeros(n, dtype=bool); m = min(n, len(filter_array)); selected[:m] = filter_array[:m] == True` -/
+def pdSelected (n : Nat) (xs : List Bool) : List Bool :=
+  xs.take (min n xs.length) ++ List.replicate (n - min n xs.length) false
+
+/-- `field_arr[selected]` for a boolean mask -/
+def maskSelect {α} (data : List α) (mask : List Bool) : List α :=
+  (data.zip mask).filterMap (fun p => if p.2 then some p.1 else Option.none)
+
+/-- repaired: the column restricted to the rows the validated filter keeps -/
+def pdApply (flt : Option (List Bool)) (data : List Cell) : List Cell :=
+  match flt with
+  | Option.none => data
+  | some xs => maskSelect data (pdSelected data.length xs)
+
+/-- `field_arr[index_array]` for an integer index array: negative numbers count from the end -/
+def takeRows (data : List Cell) : List Int → Except Err (List Cell)
+  | [] => .ok []
+  | x :: xs =>
+    if x < -(data.length : Int) ∨ (data.length : Int) ≤ x then .error (.oob "index out of bounds") else
+    match data[(if x < 0 then x + data.length else x).toNat]? with
+    | Option.none => .error (.oob "index out of bounds")
+    | some c =>
+      match takeRows data xs with
+      | .error e => .error e
+      | .ok cs => .ok (c :: cs)
+
+/-- as found: `field_arr[row_filter]` with the raw argument -/
+def pdApplyAsFound (rf : PdFilter) (data : List Cell) : Except Err (List Cell) :=
+  match rf with
   | .none => .ok data
-  | .field _ => .error (.oob "only integers, slices, ... are valid indices")
+  | .invalid => .error (.oob "only integers, slices, ... are valid indices")
+  | .field _ _ => .error (.oob "only integers, slices, ... are valid indices")
   | .list [] | .array [] => .ok []                       -- an empty index selects nothing, whatever the length
   | .list xs | .array xs =>
     if xs.length ≠ data.length then .error (.oob "boolean index did not match indexed array")
-    else .ok ((data.zip xs).filterMap (fun p => if p.2 then some p.1 else Option.none))
+    else .ok (maskSelect data xs)
+  | .intArray xs => takeRows data xs
 
 /-- the length check of `to_pandas` over `col_to_convert` -/
 def pdCheckLengths (f : Frame) (bench : Nat) : List Cell → Except Err Unit
@@ -197,17 +283,18 @@ def pdCheckLengths (f : Frame) (bench : Nat) : List Cell → Except Err Unit
     | .ok c => if c.data.length ≠ bench then .error (.valueError "All fields must be of the same length.")
                else pdCheckLengths f bench ns
 
-/-- the dict `temp`: later assignments to an existing key keep its position -/
-def pdCollect (f : Frame) (rf : PdFilter) : List Cell → List (Cell × List Cell) → Except Err (List (Cell × List Cell))
+/-- the dict `temp`: later assignments to an existing key keep its position; `app` is what is done to one column -/
+def pdCollect (f : Frame) (app : List Cell → Except Err (List Cell)) :
+    List Cell → List (Cell × List Cell) → Except Err (List (Cell × List Cell))
   | [], acc => .ok acc
   | n :: ns, acc =>
     match f.getE n with
     | .error e => .error e
     | .ok c =>
-      match pdApply c.data rf with
+      match app c.data with
       | .error e => .error e
       | .ok xs =>
-        pdCollect f rf ns (if acc.any (·.1 == n) then acc.map (fun p => if p.1 == n then (n, xs) else p) else acc ++ [(n, xs)])
+        pdCollect f app ns (if acc.any (·.1 == n) then acc.map (fun p => if p.1 == n then (n, xs) else p) else acc ++ [(n, xs)])
 
 /-- the "checking data length if multiple columns" block of `to_pandas` -/
 def pdCheck (f : Frame) (names : List Cell) : Except Err Unit :=
@@ -218,18 +305,29 @@ def pdCheck (f : Frame) (names : List Cell) : Except Err Unit :=
     | .error e => .error e
     | .ok c0 => pdCheckLengths f c0.data.length names
 
-/-- `DataFrame.to_pandas`: the columns of the returned pandas frame -/
-def toPandas (f : Frame) (rf : PdFilter) (cf : ColFilter) : Except Err (List (Cell × List Cell)) :=
-  match cf with
+/-- `if isinstance(col_to_convert, list): …` — only a list of names (or no `col_filter`) is length-checked -/
+def pdChecks (f : Frame) : ColFilter → Except Err Unit
+  | .none => pdCheck f f.keys
+  | .many names => pdCheck f names
+  | _ => .ok ()
+
+/-- the loop `for field in col_to_convert` -/
+def pdLoop (f : Frame) (app : List Cell → Except Err (List Cell)) : ColFilter → Except Err (List (Cell × List Cell))
   | .invalid => .error (.keyError "not a field name")
-  | .one n => pdCollect f rf [n] []
-  | .none =>
-    match pdCheck f f.keys with
-    | .error e => .error e
-    | .ok _ => pdCollect f rf f.keys []
-  | .many names =>
-    match pdCheck f names with
-    | .error e => .error e
-    | .ok _ => pdCollect f rf names []
+  | .one n => pdCollect f app [n] []
+  | .none => pdCollect f app f.keys []
+  | .many names => pdCollect f app names []
+
+/-- `DataFrame.to_pandas`: the columns of the returned pandas frame -/
+def toPandas (v : Variant) (f : Frame) (rf : PdFilter) (cf : ColFilter) : Except Err (List (Cell × List Cell)) :=
+  match pdChecks f cf with
+  | .error e => .error e
+  | .ok _ =>
+    match v with
+    | .asFound => pdLoop f (pdApplyAsFound rf) cf
+    | .repaired =>
+      match validateRowFilter rf.toRowFilter with          -- the call `to_csv` makes
+      | .error e => .error e
+      | .ok flt => pdLoop f (fun data => .ok (pdApply flt data)) cf
 
 end Exetera.Export
